@@ -811,3 +811,175 @@ pub fn limited_bounded_flood_cases(st: &mut S16, n: usize) {
         }
     }
 }
+
+/// A flood of n well-formed requests with distinct ids, all in flight at once, then a cancellation
+/// for each (or an answer to each), then a probe: sizes around every power of two up to `max`
+/// (tables and queues that grow in steps show at the step), on the server and - as a burst of n
+/// calls answered in one go - on the client.
+pub fn distinct_flood_cases(st: &mut S16, max: usize) {
+    use futures::{Sink, Stream};
+    use tarpc::server::{BaseChannel, Channel};
+    use tarpc::Request;
+    let mut sizes: Vec<usize> = vec![1, 2, 3];
+    let mut p = 4usize;
+    while p <= max {
+        sizes.extend([p - 1, p, p + 1]);
+        p *= 2;
+    }
+    sizes.extend([895, 896, 897, 898, 1000, 1792, 1793]);
+    sizes.retain(|n| *n <= max + 1);
+    sizes.sort();
+    sizes.dedup();
+    for n in sizes {
+        for answer in [false, true] {
+            st.evals += 1;
+            st.distinct.insert(h(&("distinct-flood", n, answer)));
+            let label = format!("{n} requests with distinct ids in flight at once, then {} each, then a probe", if answer { "an answer to" } else { "a cancellation for" });
+            let r = catch_unwind(AssertUnwindSafe(|| -> Result<(), String> {
+                let (mut peer, server_end) = tarpc::transport::channel::unbounded::<Response<String>, ClientMessage<String>>();
+                let mut reqs = Box::pin(BaseChannel::with_defaults(server_end).requests());
+                let waker = futures::task::noop_waker();
+                let mut cx = Context::from_waker(&waker);
+                let deadline = std::time::Instant::now() + Duration::from_secs(3600);
+                let mk = |id: u64| {
+                    let mut ctx = context::current();
+                    ctx.deadline = deadline;
+                    ClientMessage::Request(Request { context: ctx, id, message: "x".to_string() })
+                };
+                for id in 0..n as u64 {
+                    Pin::new(&mut peer).start_send(mk(id)).map_err(|e| format!("machinery: {e}"))?;
+                }
+                let mut held = vec![];
+                for _ in 0..(2 * n + 8) {
+                    match reqs.as_mut().poll_next(&mut cx) {
+                        Poll::Ready(Some(Ok(r))) => held.push(r),
+                        Poll::Ready(Some(Err(e))) => return Err(format!("the server channel reported {e}")),
+                        Poll::Ready(None) => return Err("the server channel ended".into()),
+                        Poll::Pending => break,
+                    }
+                }
+                if held.len() != n {
+                    return Err(format!("{} of {n} requests were handed over", held.len()));
+                }
+                if answer {
+                    for r in held.drain(..) {
+                        let mut f = Box::pin(r.execute(tarpc::server::serve(|_, s: String| async move { Ok(s) })));
+                        let _ = f.as_mut().poll(&mut cx);
+                    }
+                } else {
+                    for id in 0..n as u64 {
+                        let tc = tarpc::trace::Context::default();
+                        Pin::new(&mut peer).start_send(ClientMessage::Cancel { trace_context: tc, request_id: id }).map_err(|e| format!("machinery: {e}"))?;
+                    }
+                }
+                for _ in 0..(2 * n + 8) {
+                    if let Poll::Ready(Some(Err(e))) = reqs.as_mut().poll_next(&mut cx) {
+                        return Err(format!("the server channel reported {e}"));
+                    }
+                }
+                drop(held);
+                Pin::new(&mut peer).start_send(mk(9_999_999)).map_err(|e| format!("machinery: {e}"))?;
+                let mut probe = None;
+                for _ in 0..4 {
+                    match reqs.as_mut().poll_next(&mut cx) {
+                        Poll::Ready(Some(Ok(r))) => probe = Some(r),
+                        Poll::Ready(Some(Err(e))) => return Err(format!("the server channel reported {e}")),
+                        Poll::Ready(None) => return Err("the server channel ended".into()),
+                        Poll::Pending => {}
+                    }
+                }
+                let Some(pr) = probe else { return Err("the probe request after the flood was not handed over".into()) };
+                let mut f = Box::pin(pr.execute(tarpc::server::serve(|_, s: String| async move { Ok(s) })));
+                let _ = f.as_mut().poll(&mut cx);
+                let _ = reqs.as_mut().poll_next(&mut cx);
+                let mut answered = false;
+                while let Poll::Ready(Some(Ok(resp))) = Pin::new(&mut peer).poll_next(&mut cx) {
+                    if resp.request_id == 9_999_999 && resp.message.is_ok() {
+                        answered = true;
+                    }
+                }
+                if answered {
+                    Ok(())
+                } else {
+                    Err("the probe request after the flood was not answered".into())
+                }
+            }));
+            match r {
+                Err(_) => {
+                    let p = take_panic();
+                    failure(st, "C16-server-panic/distinct-flood".into(), format!("{label}: {p}"));
+                }
+                Ok(Err(m)) if m.starts_with("machinery") => failure(st, "C16-machinery".into(), format!("{label}: {m}")),
+                Ok(Err(m)) => failure(st, "C16-server-stops-serving".into(), format!("{label}: {m}")),
+                Ok(Ok(())) => {}
+            }
+            // the client: n calls outstanding at once (the default limits allow 1000), all answered in one go
+            if n > 1000 {
+                continue;
+            }
+            st.evals += 1;
+            let label = format!("{n} calls outstanding at once on one client, all answered in one go");
+            let r = catch_unwind(AssertUnwindSafe(|| -> Result<(), String> {
+                let (ct, mut server_end) = tarpc::transport::channel::unbounded::<Response<String>, ClientMessage<String>>();
+                let mut cfg = client::Config::default();
+                cfg.pending_request_buffer = n.max(1);
+                let nc = client::new::<String, String, _>(cfg, ct);
+                let ch = nc.client;
+                let mut dispatch = Box::pin(nc.dispatch);
+                let waker = futures::task::noop_waker();
+                let mut cx = Context::from_waker(&waker);
+                let mut calls: Vec<Pin<Box<dyn Future<Output = Result<String, client::RpcError>>>>> = vec![];
+                for i in 0..n {
+                    let c = ch.clone();
+                    let mut ctx = context::current();
+                    ctx.deadline = std::time::Instant::now() + Duration::from_secs(3600);
+                    let mut f: Pin<Box<dyn Future<Output = Result<String, client::RpcError>>>> = Box::pin(async move { c.call(ctx, format!("q{i}")).await });
+                    let _ = f.as_mut().poll(&mut cx);
+                    calls.push(f);
+                }
+                for _ in 0..4 {
+                    if let Poll::Ready(r) = dispatch.as_mut().poll(&mut cx) {
+                        return Err(format!("the dispatch ended with {r:?}"));
+                    }
+                }
+                let mut ids = vec![];
+                while let Poll::Ready(Some(Ok(m))) = Pin::new(&mut server_end).poll_next(&mut cx) {
+                    if let ClientMessage::Request(r) = m {
+                        ids.push(r.id);
+                    }
+                }
+                if ids.len() != n {
+                    return Err(format!("{} of {n} requests reached the peer", ids.len()));
+                }
+                for id in ids {
+                    Pin::new(&mut server_end).start_send(Response { request_id: id, message: Ok("a".to_string()) }).map_err(|e| format!("machinery: {e}"))?;
+                }
+                for _ in 0..4 {
+                    if let Poll::Ready(r) = dispatch.as_mut().poll(&mut cx) {
+                        return Err(format!("the dispatch ended with {r:?}"));
+                    }
+                }
+                let mut ok = 0;
+                for f in calls.iter_mut() {
+                    if let Poll::Ready(Ok(_)) = f.as_mut().poll(&mut cx) {
+                        ok += 1;
+                    }
+                }
+                if ok == n {
+                    Ok(())
+                } else {
+                    Err(format!("{ok} of {n} calls completed with their reply"))
+                }
+            }));
+            match r {
+                Err(_) => {
+                    let p = take_panic();
+                    failure(st, "C16-client-panic/distinct-flood".into(), format!("{label}: {p}"));
+                }
+                Ok(Err(m)) if m.starts_with("machinery") => failure(st, "C16-machinery".into(), format!("{label}: {m}")),
+                Ok(Err(m)) => failure(st, "C16-client-call-lost".into(), format!("{label}: {m}")),
+                Ok(Ok(())) => {}
+            }
+        }
+    }
+}
